@@ -243,6 +243,8 @@ impl KeyValueStore {
                 self.wait_list.notify_head();
                 (imm, imm_log, imm_path, imm_trigger)
             };
+            #[cfg(rescrv_blue_verif)]
+            crate::verif::probe("flush.rotated");
             self.poison::<(), SError>(Ok(()))?;
             if Arc::strong_count(&imm_log) != 1 {
                 return Err(logic_error(
@@ -280,6 +282,8 @@ impl KeyValueStore {
             if let Some(file_name) = imm_path.file_name() {
                 rename(&imm_path, TRASH_ROOT(&self.root).join(file_name))?;
             }
+            #[cfg(rescrv_blue_verif)]
+            crate::verif::probe("flush.before_clear");
             let mut state = self.state.lock().unwrap();
             state.imm = None;
             state.imm_trigger = imm_trigger;
